@@ -378,6 +378,14 @@ CAMPAIGNS['C09'].append(
          'sampled points per scenario; thorough: all)',
          mode='sched-sweep', nontrivial=nt_threads, chunk=3,
          post='tag_all:C09', sweep_max={'quick': 12, 'thorough': None}))
+CAMPAIGNS['C09'].append(
+    camp('c09-threads-oserror', 'threads', {'p_tamper': 0.6}, THREAD_RULE +
+         '; OSError at every pre-commit mutating call index of the last '
+         'build (one thread\'s internal failure must not disturb the others)',
+         mode='oserror-sweep', nontrivial=nt_threads, chunk=4,
+         fault_step='lastbuild', post='tag_all:C09', torn=False,
+         errnos=['ENOSPC', 'EACCES'], crash_end=True, weight=0.7,
+         sweep_max={'quick': 8, 'thorough': None}, follow=1))
 CAMPAIGNS['C08'].append(
     camp('c08-preemption-sweep', 'threads', {'p_same_key': 1.0},
          'same key from 2-3 threads, single-preemption sweep of the first '
